@@ -25,7 +25,7 @@ RULE = ("Hypothesis draws a system spec, optionally a history of 1-4 edits, then
         "value for inputs). The inputs of the computed model are also compared with those of the same objects "
         "built without a System (nothing computed yet). Non-trivial = >=2 recomputation requests out of canonical order, or a plot/export call.")
 ASSUMPTIONS = ["recomputing an object whose inputs did not change may replace value objects; only values are compared"]
-BUDGET = {"quick": dict(examples=12, wall_guard_s=600), "thorough": dict(examples=200, wall_guard_s=3000)}
+BUDGET = {"quick": dict(examples=20, wall_guard_s=600), "thorough": dict(examples=200, wall_guard_s=3000)}
 OPS = ["recompute", "recompute", "recompute", "recompute_system", "str", "explain", "to_json", "system_to_json",
        "system_to_json_calc", "plot_category", "plot_diffs", "object_graph", "calculus_graph"]
 
